@@ -141,6 +141,20 @@ def err_name(e):
   return 'Exception:' + type(e).__name__
 
 
+_compiled = [0]
+
+
+def note_compiles(n=1):
+  """every ~100 cases that make XLA compile, drop jax's caches (the process otherwise accumulates thousands of executables)"""
+  _compiled[0] += n
+  if _compiled[0] >= 100:
+    _compiled[0] = 0
+    import gc
+
+    jax.clear_caches()
+    gc.collect()
+
+
 class sep_flag:
   """sets flax_fix_rng_separator for the duration of a case and restores it"""
 
@@ -205,6 +219,7 @@ class _Annot:
 
   def __init__(self, bodies):
     self.kids = {}
+    self.kids_in_jit = {}
     self.jits = []
     self.nparam = 0
     self.bodies = [self.annotate(b, in_jit=False) for b in bodies]
@@ -218,12 +233,20 @@ class _Annot:
       elif s[0] == 'var':
         out.append(('var', s[1]))
       elif s[0] == 'sub':
-        # equal bodies of one child share a method, equal jit-ted bodies share one jit-ted method (one trace cache): a module
-        # that calls the same jit-ted method from several entry points
+        # equal jit-ted bodies share one jit-ted method (one trace cache): a module that calls the same jit-ted method from several
+        # entry points; for that, equal child bodies called from *inside* jit-ted bodies share a child method.  Child calls outside
+        # jit-ted bodies always get their own method (their draws may be rendered as uniquely named parameters).
         lst = self.kids.setdefault(s[1], [])
-        if s[2] not in lst:
+        if in_jit:
+          seen = self.kids_in_jit.setdefault(s[1], {})
+          key = json.dumps(s[2])
+          if key not in seen:
+            lst.append(s[2])
+            seen[key] = len(lst) - 1
+          out.append(('sub', s[1], seen[key]))
+        else:
           lst.append(s[2])
-        out.append(('sub', s[1], lst.index(s[2])))
+          out.append(('sub', s[1], len(lst) - 1))
       elif s[0] == 'jit':
         ann = self.annotate(s[1], in_jit=True)
         if ann not in self.jits:
@@ -2080,6 +2103,8 @@ def run(ctx):
 
   # --- Linen module programs -------------------------------------------------------------------------
   for case, allow_jit in linen_cases:
+    if allow_jit:
+      note_compiles(4)
     ok = check_linen_case(ctx, drv, case, mouts=mine())
     if ok and (not allow_jit or rng.random() < 0.5):
       check_linen_edits(ctx, rng, case)
@@ -2091,10 +2116,12 @@ def run(ctx):
 
   # --- several jit-ted methods / several applies per process (F11 regression) --------------------------------
   for c in jit_cases:
+    note_compiles(6)
     check_jit_history(ctx, drv, c, mouts=mine())
   ctx.sample(jit_cases[0])
   for _ in range(4 if not thorough else 40):
     sd = gen_seeds(rng)
+    note_compiles(2)
     check_jit_alias(ctx, drv, {'kind': 'jit-alias', 'sep': rng.random() < 0.5, 'seeds': sd, 'm': rng.randrange(1, 4), 'stream': rng.choice([r[0] for r in sd] + ['x'] if any(r[0] == FALLBACK_LINEN for r in sd) else [r[0] for r in sd])})
   probe_shape_dependent_jit(ctx)
   probe_separator_count_nul(ctx)
@@ -2108,16 +2135,19 @@ def run(ctx):
 
   # --- NNX ------------------------------------------------------------------------------------------------------
   for c in nnx_cases:
+    note_compiles(3 * sum(1 for op in c['ops'] if op[0] == 'lanes'))
     if check_nnx_case(ctx, drv, c, mouts=mine()) and rng.random() < 0.6:
       check_nnx_twins(ctx, c)
   ctx.sample(c)
   for c in stream_cases:
+    note_compiles(sum(1 for op in c['ops'] if op[0] == 'lanes'))
     check_stream_history(ctx, drv, c, mouts=mine())
   ctx.sample(c)
   for c in node_cases:
     check_node_case(ctx, drv, c, mouts=mine())
   ctx.sample(c)
   for c in lift_cases:
+    note_compiles(4)
     check_lift_case(ctx, drv, c, mouts=mine())
   ctx.sample(c)
   lap('nnx+node+lift')
